@@ -14,7 +14,7 @@
    to-all and not removed since, the i-th subscription of the history having id i.
    Data races are NOT the subject of these theorems (race detector, see the harness). *)
 From Coq Require Import Permutation Sorted.
-From GoSse Require Import Base Callbacks CallbacksProofs CallbacksTheorems CallbacksLts CallbacksLtsProofs.
+From GoSse Require Import Base Callbacks CallbacksProofs CallbacksTheorems CallbacksCounts CallbacksLts CallbacksLtsProofs.
 Local Open Scope nat_scope.
 
 (* For every history and every Dispatch in it: the invoked callbacks are, as a multiset,
@@ -73,6 +73,15 @@ Theorem C13_order_log_complete :
     In (j, e) (inv_log ops) <->
     exists c, nth_error (trace reg_empty ops) j = Some (OInvoked c) /\ In e c.
 Proof. exact inv_log_complete. Qed.
+
+(* Nothing of a removed subscription is retained: after every history the sizes of the registry
+   (callbacks per type in total, to-all callbacks, types - what VerifCallbackCount reports) are
+   those of the set of subscriptions in force. *)
+Theorem C13_nothing_retained :
+  forall ops,
+    counts (run_ops reg_empty ops) =
+    (length (filter is_typed (live ops)), length (filter is_all (live ops)), length (live_types (live ops))).
+Proof. exact counts_are_live. Qed.
 
 (* ---- all schedules ---------------------------------------------------------------------------
    theories/CallbacksLts.v: the registry with its lock as a transition system.  dispatch holds the
